@@ -288,6 +288,7 @@ func ruleC16Pair(p *Prog, a *Anchors, r *Report) {
 	r.Begin("R-C16-PAIR", "wherever an Error's Line and Column are set they come from the Line and Col of the SAME token (and Error.Token, when set, is that token; an execution error takes its Filename from that token too)", 3)
 	type posStore struct {
 		line, col, tok, file *ssa.Store
+		toks                 []*ssa.Store // every store of Token into this error
 	}
 	for _, f := range p.Funcs {
 		// group stores by base object VN
@@ -320,7 +321,11 @@ func ruleC16Pair(p *Prog, a *Anchors, r *Report) {
 				case "Column":
 					g.col = st
 				case "Token":
-					g.tok = st
+					// (the one in the block of the Line store is "the" token store of the group)
+					if g.tok == nil || (g.line != nil && st.Block() == g.line.Block()) {
+						g.tok = st
+					}
+					g.toks = append(g.toks, st)
 				case "Filename":
 					g.file = st
 				}
@@ -385,6 +390,24 @@ func ruleC16Pair(p *Prog, a *Anchors, r *Report) {
 			// Token and position are set on the same paths: a Token stored where Line/Column are not (because the
 			// error already has a position) pairs the token of one place with the position of another
 			freshErr := freshErrorValue(g.line.Addr.(*ssa.FieldAddr).X)
+			// every further store of Token into a completed error stands with the position as well
+			for _, ts := range g.toks {
+				if ts == g.tok || freshErr || ts.Block() == g.line.Block() {
+					continue
+				}
+				post := true
+				for _, ret := range returnsOf(f) {
+					if !ReachableBlocks(ts.Block())[ret.Block()] {
+						continue
+					}
+					if !MustPassFrom(ts.Block(), indexIn(ts), ret, func(x ssa.Instruction) bool { return x == ssa.Instruction(g.line) }) {
+						post = false
+					}
+				}
+				if !post {
+					r.Bad(owner+":token-with-position", p.InstrPos(ts), "Error.Token is stored on a path on which Line/Column are not (the error already has a position): the message then reads `Line 2 Col 7 near '<text of a token somewhere else>'`")
+				}
+			}
 			if g.tok != nil && g.tok.Block() != g.line.Block() && !freshErr {
 				post := true
 				for _, ret := range returnsOf(f) {
